@@ -434,6 +434,46 @@ def classify(P, rec):
 
 
 # ---------------------------------------------------------------------------
+# extra checks
+# ---------------------------------------------------------------------------
+
+def run_extras(P, tier, seed, replay, result):
+    """EXTRA_CHECKS = ["tools/extra/x.py", …] in a property module: id-less companion checks of the same property
+    (e.g. the grain variant of C01/C02).  Each script is run as `python3 <script> <tier> <seed>` and prints ONE JSON
+    object {"obligations","discharged","theorems","cases","diffs","oracle_failures","broken","failing"}; it does for
+    its own model what this file does for a property (prove + audit, harness, lockstep, oracle, search).  A script
+    that is absent is skipped; one that does not deliver its JSON object counts as a broken correspondence.
+    With --replay only the script named by the replay file's "extra" field runs (on that case)."""
+    out = []
+    only = None
+    if replay:
+        only = json.load(open(replay)).get("extra")
+        if not only:
+            return out
+    for rel in getattr(P, "EXTRA_CHECKS", []) or []:
+        script = os.path.join(VERIF, rel)
+        if not os.path.exists(script) or (only and rel != only):
+            continue
+        cmd = [sys.executable, script, tier, str(seed)] + (["--replay", replay] if only else [])
+        log("extra check", rel)
+        rc, so, se, dt = run(cmd, timeout=7200)
+        e = None
+        for line in reversed(so.strip().split("\n")):
+            try:
+                e = json.loads(line)
+                break
+            except ValueError:
+                continue
+        if not isinstance(e, dict) or "obligations" not in e:
+            result["broken"].append({"kind": "correspondence", "what": f"extra check {rel} did not deliver a result (rc={rc})", "detail": (se or so)[-1500:]})
+            continue
+        e["script"] = rel
+        e["wall_s"] = round(dt, 1)
+        out.append(e)
+    return out
+
+
+# ---------------------------------------------------------------------------
 # main
 # ---------------------------------------------------------------------------
 
@@ -479,6 +519,8 @@ def main():
     if args.replay:
         rp = json.load(open(args.replay))
         cases = [rp["case"]] if "case" in rp else rp.get("cases", [])
+        if rp.get("extra"):
+            cases = []  # the case belongs to an extra check (run_extras replays it)
     else:
         cdir = os.path.join(VERIF, "corpus", pid)
         if os.path.isdir(cdir):
@@ -521,8 +563,28 @@ def main():
         else:
             new_fail.append((c, r))
 
+    # extra checks: their obligations, cases, differences, failures and broken obligations count like the main ones
+    extras = run_extras(P, tier, seed, args.replay, result)
+    extra_failing = None
+    for e in extras:
+        obligations += int(e.get("obligations", 0))
+        discharged += int(e.get("discharged", 0))
+        result["broken"] += list(e.get("broken") or [])
+        result.setdefault("axioms", {}).update(e.get("axioms") or {})
+        if e.get("failing") and extra_failing is None:
+            extra_failing = (e["script"], e["failing"])
+    extra_cases = sum(int(e.get("cases", 0)) for e in extras)
+    extra_diffs = sum(int(e.get("diffs", 0)) for e in extras)
+    extra_fails = sum(int(e.get("oracle_failures", 0)) for e in extras)
+
     violation = None
-    if new_fail:
+    if extra_failing and not new_fail:
+        script, fr = extra_failing
+        violation = write_replay(pid, {"property": pid, "kind": "failing-input", "extra": script, "case": fr.get("case"), "impl": fr.get("impl"),
+                                       "model": fr.get("model"), "why": fr.get("why"), "broken": result["broken"], "seed": seed, "tier": tier,
+                                       "how_to_replay": f"python3 tools/check.py {pid} --replay <this file>"})
+        vline = f"VIOLATION property={pid} replay={violation}"
+    elif new_fail:
         c, r = new_fail[0]
         r = shrink(P, r, harness, driver, tier, result, c)
         violation = write_replay(pid, {"property": pid, "kind": "failing-input", "case": r["case"], "impl": r["impl"], "model": r["model"],
@@ -550,26 +612,29 @@ def main():
     samples = [{"case": r["case"][:400], "impl": (r["impl"] or "")[:400], "model": (r["model"] or "")[:400]} for r in recs[:2] + recs[-3:]]
     if not samples:
         samples = [{"obligation": t} for t in P.THEOREMS[:5]]
+    distinct += sum(int(e.get("distinct_nontrivial", 0)) for e in extras)
     ev = {
         "property_id": pid, "tier": tier, "seed": seed, "level": getattr(P, "LEVEL", "proof"),
         "coverage": {
             "obligations": obligations, "discharged": discharged,
             "checker_cmd": f"cd /verif/lean && lake build {' '.join(P.LEAN_MODULES)} && lake env lean ../build/audit_{pid}.lean" + (" && lake env leanchecker <module>" if tier == "thorough" else ""),
             "trusted_base": TRUSTED_BASE_COMMON + list(getattr(P, "TRUSTED", [])),
-            "theorems": list(P.THEOREMS),
+            "theorems": list(P.THEOREMS) + [t for e in extras for t in e.get("theorems", [])],
             "axioms": result.get("axioms", {}),
-            "evaluations": len(recs),
+            "evaluations": len(recs) + extra_cases,
             "distinct_nontrivial": distinct,
             "rule": getattr(P, "RULE", "cases generated by tools/props/%s.py gen_cases from one PRNG; non-trivial = implementation output is not an error/empty; distinct by (case, output)" % pid.lower()),
             "samples": samples,
-            "traces_validated_against_impl": len([r for r in recs if r["impl"] is not None and r["model"] is not None and not r["diff"]]),
-            "correspondence_differences": len(diffs),
-            "oracle_failures": len(fails),
+            "traces_validated_against_impl": len([r for r in recs if r["impl"] is not None and r["model"] is not None and not r["diff"]])
+                                             + sum(int(e.get("traces_validated_against_impl", 0)) for e in extras),
+            "correspondence_differences": len(diffs) + extra_diffs,
+            "oracle_failures": len(fails) + extra_fails,
             "known_findings_hit": sorted(known_hits),
             "input_distribution": dist,
             "explanation": getattr(P, "EXPLANATION", ""),
             "exhaustive": bool(getattr(P, "EXHAUSTIVE", {}).get(tier, False)) if isinstance(getattr(P, "EXHAUSTIVE", None), dict) else False,
         },
+        "extra_checks": [{k: e.get(k) for k in ("script", "id", "obligations", "discharged", "cases", "diffs", "oracle_failures", "wall_s", "timing")} for e in extras],
         "assumptions": list(getattr(P, "ASSUMPTIONS", [])),
         "wall_s": round(time.time() - t_start, 2),
         "violations": 1 if violation else 0,
@@ -586,8 +651,8 @@ def main():
     for c, r in known_hits.items():
         e = [e for e in kf if e["id"] == c][0]
         print(f"KNOWN-FINDING: property={pid} {c}: {e['what']} (witness: {r['case'][:160]})")
-    print(f"[{pid}] tier={tier} seed={seed} obligations={obligations} discharged={discharged} cases={len(recs)} "
-          f"distinct_nontrivial={distinct} diffs={len(diffs)} oracle_failures={len(fails)} known={len(known_hits)} wall={ev['wall_s']}s")
+    print(f"[{pid}] tier={tier} seed={seed} obligations={obligations} discharged={discharged} cases={len(recs) + extra_cases} "
+          f"distinct_nontrivial={distinct} diffs={len(diffs) + extra_diffs} oracle_failures={len(fails) + extra_fails} known={len(known_hits)} wall={ev['wall_s']}s")
     if violation:
         for b in result["broken"]:
             print(f"  broken[{b['kind']}]: {b['what']}")
